@@ -221,9 +221,11 @@ def rule_messages(eng, rep):
             n_unsucc += 1
             rule = "C10-4.max-unsuccessful-restarts"
             okc = False
+            from .common import expand_locals
             for (b, at) in gs:
-                # max <= nruns - last   (i.e. nruns - last >= max)
-                if at.op == "le" and "restarts.max_unsuccessful_restarts" in param_keys_in(eng, at.lhs) and "last_successful_run" in ekey(at.rhs):
+                # max <= nruns - last   (i.e. nruns - last >= max); the difference may be held in an explaining local
+                rhs_x = expand_locals(cfg, cfg.ast_of(b), at.rhs) if at.rhs is not None else None
+                if at.op == "le" and "restarts.max_unsuccessful_restarts" in param_keys_in(eng, at.lhs) and rhs_x is not None and "last_successful_run" in ekey(rhs_x):
                     okc = True
             if okc:
                 rep.ok(rule, site, "message is control dependent on nruns - last_successful_run >= max_unsuccessful_restarts")
@@ -453,6 +455,37 @@ def _maxfun_site(eng, rep, rule, fi, cfg, node, call, site, gs):
     var = None
     if isinstance(st, ast.Assign) and isinstance(st.targets[0], ast.Name):
         var = st.targets[0].id
+    if var is None and isinstance(st, ast.Return):
+        # the message is returned directly: nothing can overwrite it, its path condition is the guard list of the return itself
+        ver_at = _ver_at(eng, fi, cfg)
+        formulas, atoms = [], set()
+        for (b, at) in guards_of(cfg, node):
+            formulas.append(_formula_of_guard(cfg, b, at, atoms, ver_at))
+        goal = None
+        for n2 in cfg.nodes_of_kind("cond") + [x for x in cfg.g.nodes if cfg.kind(x) == "stmt"]:
+            ex = cfg.ast_of(n2)
+            for sub in ast.walk(ex) if ex is not None else []:
+                if isinstance(sub, ast.Compare) and len(sub.ops) == 1:
+                    at = atom_of(sub, True)
+                    rel = _nf_relation(eng, fi, at)
+                    if rel in ("nf<max", "nf>=max"):
+                        key, pos = _canon(at)
+                        goal = (key, pos if rel == "nf<max" else not pos, at)
+        if goal is None:
+            rep.bad(rule, site, "%s|maxfun-claim" % fi.fid, "no comparison of the evaluation counter with the budget in this function")
+            return
+        try:
+            gkey = goal[0] + (ver_at(node, goal[2]),)
+            okc, cex = entails((formulas, atoms), gkey, not goal[1])
+        except AnalysisError as ex:
+            rep.unknown(rule, site, str(ex))
+            return
+        if okc:
+            rep.ok(rule, site, "truth table over %d atoms: the directly returned message is reached only with NF >= MAXFUN" % len(atoms | {gkey}))
+        else:
+            rep.bad(rule, site, "%s|maxfun-claim" % fi.fid, "the MAXFUN message can be returned on a path where NF < MAXFUN is possible (counter-model: %s)" % (
+                {k[1] + "<" + k[2] if k[0] == "lt" else str(k): v for k, v in (cex or {}).items()}))
+        return
     if var is None:
         rep.unknown(rule, site, "MAXFUN message is not stored in a local")
         return
